@@ -404,9 +404,15 @@ func runInBubble(sc *Scenario) *History {
 				mu.Lock()
 				c.Started = true
 				c.StartStep = cur
-				c.StartAt = time.Since(t0)
+				c.StartAt = time.Since(t0) + time.Duration(st.D)*time.Millisecond
 				mu.Unlock()
+				delay := time.Duration(st.D) * time.Millisecond
 				go func(i int, ctx context.Context) {
+					if delay > 0 {
+						// the call is made at the very instant other timers
+						// (the flush timer, deadlines) fire
+						time.Sleep(delay)
+					}
 					err := consume(ctx, i)
 					mu.Lock()
 					c.Done = true
@@ -415,6 +421,9 @@ func runInBubble(sc *Scenario) *History {
 					c.DoneAt = time.Since(t0)
 					mu.Unlock()
 				}(i, g.ctx)
+			}
+			if st.D > 0 {
+				time.Sleep(time.Duration(st.D) * time.Millisecond)
 			}
 		case StepAdvance:
 			time.Sleep(time.Duration(st.D) * time.Millisecond)
